@@ -9,13 +9,13 @@ From Coq Require Import Lia.
 Ltac ill := split; [reflexivity | exact I].
 
 (* reduce `a` to the single well-shaped case of a 2-field / 3-field builtin *)
-Ltac tup2 a x y :=
+Ltac tup2 a :=
   destruct a as [?|?|fs|]; try ill;
   destruct fs as [|x fs]; try ill;
   destruct fs as [|y fs]; [destruct x; ill|];
   destruct fs as [|? ?]; [|destruct x; try ill; destruct y; ill];
   destruct x; try ill; destruct y; try ill.
-Ltac tup3 a x y z :=
+Ltac tup3 a :=
   destruct a as [?|?|fs|]; try ill;
   destruct fs as [|x fs]; try ill;
   destruct fs as [|y fs]; [destruct x; ill|];
@@ -37,6 +37,9 @@ Local Ltac zb :=
 
 Lemma max_lt_two64 : MAX_BINARY_SIZE < two64.
 Proof. unfold MAX_BINARY_SIZE, two64. lia. Qed.
+
+Lemma in_u64_true z : 0 <= z < two64 -> in_u64 z = true.
+Proof. intros H. unfold in_u64. apply andb_true_iff. split; [apply Z.leb_le | apply Z.ltb_lt]; lia. Qed.
 
 (* ---------------------------------------------------------------- length *)
 Theorem binary_length_correct : agrees impl_binary_length spec_binary_length.
@@ -64,11 +67,11 @@ Qed.
 (* ---------------------------------------------------------------- concat *)
 Theorem binary_concat_correct : agrees impl_binary_concat spec_binary_concat.
 Proof.
-  intros a Ha. tup2 a x y. rename r into ra, r0 into rb.
+  intros a Ha. tup2 a. rename r into ra, r0 into rb.
   cbn [wf_bval] in Ha. destruct Ha as (Ha & Hb & _).
   pose proof (wf_rlen_bound _ Ha) as Ba. pose proof (wf_rlen_bound _ Hb) as Bb. pose proof max_lt_two64 as HM.
   cbn [impl_binary_concat flatten map spec_binary_concat]. rewrite !blen_bytes_of by assumption.
-  replace (in_u64 (rlen ra + rlen rb)) with true by (symmetry; unfold in_u64; apply andb_true_iff; split; [apply Z.leb_le | apply Z.ltb_lt]; lia).
+  rewrite in_u64_true by (unfold two64, MAX_BINARY_SIZE in *; lia).
   cbn [negb].
   destruct (MAX_BINARY_SIZE <? rlen ra + rlen rb) eqn:E1; destruct (rlen ra + rlen rb <=? MAX_BINARY_SIZE) eqn:E2; zb; try lia; [ill|].
   rewrite alloc_ok by (cbn [mk_concat rlen]; lia).
@@ -78,7 +81,7 @@ Qed.
 (* ---------------------------------------------------------------- repeat *)
 Theorem binary_repeat_correct : agrees impl_binary_repeat spec_binary_repeat.
 Proof.
-  intros a Ha. tup2 a x y.
+  intros a Ha. tup2 a.
   cbn [wf_bval] in Ha. destruct Ha as (Ha & _).
   pose proof (wf_rlen_bound _ Ha) as Ba. pose proof max_lt_two64 as HM.
   cbn [impl_binary_repeat flatten map spec_binary_repeat]. rewrite !blen_bytes_of by assumption.
